@@ -106,7 +106,7 @@ def posting_replay(sc, sysm, res, states, infos, loop):
   lp = None
   if loop:
     # loop indices are over states (steps incl. start steps): convert to indices over visible triples
-    idx = [k for k, i in enumerate(infos) if i["op"] != "start"]
+    idx = [k for k, i in enumerate(infos) if i["op"] != "<begin>"]
     a = len([k for k in idx if k < loop[0]])
     b = len([k for k in idx if k < loop[1]])
     lp = (a, b)
@@ -690,3 +690,165 @@ def registry_differential(ops, n, seed=0):
     elif model_reg != obs["registry"]:
       bad.append({"schedule": k, "why": "model registry %s, real %s" % (model_reg, obs["registry"])})
   return {"schedules": n, "visible_operations": nops, "disagreements": bad}
+
+
+# ---- fabric_start scenario (C13 under concurrent calls) ---------------------------------------------------------------------------
+class RealFabricStart:
+  def __init__(self, sc, sysm):
+    import queue as _queue
+    from vf import core
+    core.fresh_miros()
+    import miros.activeobject as ao
+    self.ao = ao
+    vis, _, _ = R.visibility_from(sysm)
+    self.d = d = R.Director(vis)
+    info = sc.info
+    ncallers = info["ncallers"]
+    made = []
+    me = self
+
+    class PoolThread:
+      """stands for threading.Thread inside miros.activeobject: creation, start and is_alive report to the director; start() runs the
+      real target (the real delivery loop) in a real thread"""
+
+      def __init__(self, target=None, args=(), kwargs=None, daemon=None, name=None):
+        d.before("thread_alloc", "new")
+        self.index = len(made)
+        made.append(self)
+        self.target, self.args = target, args
+        self.real = None
+        self.kind = getattr(target, "__name__", "")
+
+      def start(self):
+        d.before("pool%d" % self.index, "start")
+        tid = ncallers + self.index
+
+        def run():
+          d.register_current(tid)
+          try:
+            self.target(*self.args)
+            d.before("pool%d" % self.index, "finish")
+          finally:
+            d.done(tid)
+        self.real = threading.Thread(target=run, daemon=True)
+        self.real.start()
+
+      def is_alive(self):
+        d.before("pool%d" % self.index, "is_alive")
+        return self.real is not None and self.real.is_alive()
+
+      def join(self, timeout=None):
+        d.before("pool%d" % self.index, "join")
+        if self.real is not None:
+          self.real.join(5)
+    self.made = made
+    self.saved_thread = ao.Thread
+    ao.Thread = PoolThread
+
+    def pq(name):
+      class PQ(_queue.PriorityQueue):
+        def put(self, item, block=True, timeout=None):
+          d.before(name, "put")
+          return _queue.PriorityQueue.put(self, item, block, timeout)
+
+        def get(self, block=True, timeout=None):
+          d.before(name, "get")
+          if d.free:
+            return _queue.PriorityQueue.get(self, block, timeout)
+          try:
+            return _queue.PriorityQueue.get(self, False)
+          except _queue.Empty:
+            raise R.Mismatch("queue %s: the schedule grants a get that would block" % name)
+
+        def task_done(self):
+          d.before(name, "task_done")
+          return _queue.PriorityQueue.task_done(self)
+      return PQ()
+    self.fab = fab = ao.ActiveFabricSource()
+    fab.fifo_fabric_queue = pq("fifo_queue")
+    fab.lifo_fabric_queue = pq("lifo_queue")
+    ev = R.make_event(d, "fabric_event", False)
+    ao.FiberThreadEvent.instance = ev
+    fab.fabric_task_event = ev
+    self.event = ev
+    for k in info["lock_attrs"]:
+      setattr(fab, k, R.LockProxy(d, "fabric.%s" % k))
+    R.shared_attr(d, fab, "fifo_thread", "fabric.fifo_thread")
+    R.shared_attr(d, fab, "lifo_thread", "fabric.lifo_thread")
+    self.results, self.errors = {}, {}
+    self.bodies = {t: self.body(t, script) for t, script in enumerate(info["scripts"])}
+
+  def body(self, t, script):
+    def run():
+      try:
+        for call in script:
+          r = getattr(self.fab, call)()
+          if call == "is_alive":
+            self.results[t] = bool(r)
+      except BaseException as ex:     # noqa
+        self.errors[t] = "%s: %s" % (type(ex).__name__, ex)
+    return run
+
+  def observe(self):
+    alive = [(p.index, p.kind) for p in self.made if p.real is not None and p.real.is_alive()]
+    held = {"fifo": getattr(self.fab.__dict__.get("_vf_real_fifo_thread"), "index", None), "lifo": getattr(self.fab.__dict__.get("_vf_real_lifo_thread"), "index", None)}
+    return {"threads_created": [(p.index, p.kind) for p in self.made], "threads_running": alive, "handles_held": held,
+            "errors": {str(k): v for k, v in self.errors.items()}, "is_alive_results": {str(k): v for k, v in self.results.items()},
+            "callers_finished": sorted(t for t in self.d.finished if t < len(self.bodies))}
+
+  def cleanup(self, threads):
+    self.d.release_all()
+    threading.Event.clear(self.event)
+    import miros.activeobject as ao
+    for q in (self.fab.fifo_fabric_queue, self.fab.lifo_fabric_queue):
+      for _ in range(len(self.made) + 1):
+        q.put(ao.FabricEvent(ao.HsmEvent(signal="WAKE_UP"), priority=1))
+    for t in threads.values():
+      t.join(timeout=0.3)
+    for p in self.made:
+      if p.real is not None:
+        p.real.join(timeout=0.3)
+    ao.Thread = self.saved_thread
+
+
+def fabric_start_replay(sc, sysm, res, states, infos, loop):
+  real = RealFabricStart(sc, sysm)
+  try:
+    ok, detail, threads = R.run_threads(real.d, real.bodies, triples(infos))
+    time.sleep(0.05)
+    obs = real.observe()
+  finally:
+    real.cleanup(threads if "threads" in dir() else {})
+  return {"matched": ok, "detail": detail, "real": obs}
+
+
+def fabric_start_differential(kwargs, n, seed=0):
+  from vf.e2.check import build
+  rnd = random.Random(seed)
+  bad = []
+  ops = 0
+  for k in range(n):
+    sc, sysm = build("fabric_start", kwargs)
+    st = sysm.initial()
+    infos = []
+    for _ in range(120):
+      en = sysm.enabled_concrete(st)
+      if not en:
+        break
+      st, info = sysm.step_concrete(st, rnd.choice(en))
+      infos.append(info)
+    real = RealFabricStart(sc, sysm)
+    threads = {}
+    try:
+      ok, detail, threads = R.run_threads(real.d, real.bodies, triples(infos))
+      time.sleep(0.03)
+      obs = real.observe()
+    finally:
+      real.cleanup(threads)
+    ops += len(triples(infos))
+    model_running = sorted(j for j in range(sc.info["pool"]) if st["pool%d.st" % j] == 1)
+    if not ok:
+      bad.append({"schedule": k, "why": detail})
+    elif sorted(i for i, _ in obs["threads_running"]) != model_running:
+      bad.append({"schedule": k, "why": "model running %s, real %s" % (model_running, obs["threads_running"])})
+  return {"schedules": n, "visible_operations": ops, "disagreements": bad}
